@@ -5,6 +5,7 @@
    chk = ACCEPT | REJECT | ERR:<m><a><f> | MULTI | FUEL
    The set of path elements without a dot (standard-library roots) is passed as u_std. *)
 open C17_model
+type string = Stdlib.String.t   (* the extracted model now contains Coq.Strings.String.string *)
 
 let rec pos_of_int i = if i = 1 then XH else if i land 1 = 0 then XO (pos_of_int (i lsr 1)) else XI (pos_of_int (i lsr 1))
 let n_of_int i = if i = 0 then N0 else Npos (pos_of_int i)
@@ -141,6 +142,77 @@ let handle line =
     Printf.sprintf "T=%s ; TT=%s ; CK=%s ; CK0=%s" (string_of_tres t) tt ck (string_of_cres (c17_check ifuel u mm deps0))
   | _ -> "BADCASE"
 
+(* ---- module file codec cases:  MC <hex cur> <tokens>  (format: harness/c17/mc.go) ---- *)
+let hexval c = match c with '0'..'9' -> Char.code c - 48 | 'a'..'f' -> Char.code c - 87 | _ -> failwith "hex"
+let unhex s =
+  if s = "-" then "" else
+  String.init (String.length s / 2) (fun i -> Char.chr (16 * hexval s.[2*i] + hexval s.[2*i+1]))
+let hex s = if s = "" then "-" else String.concat "" (List.map (fun c -> Printf.sprintf "%02x" (Char.code c)) (List.init (String.length s) (String.get s)))
+let str_of_string s = List.init (String.length s) (fun i -> n_of_int (Char.code s.[i]))
+let string_of_str l = String.concat "" (List.map (fun n -> String.make 1 (Char.chr (int_of_n n))) l)
+let z_of_int i = if i = 0 then Z0 else if i > 0 then Zpos (pos_of_int i) else Zneg (pos_of_int (-i))
+let int_of_z = function Z0 -> 0 | Zpos p -> int_of_pos p | Zneg p -> - (int_of_pos p)
+
+let rec parse_val toks =
+  match toks with
+  | [] -> failwith "tokens"
+  | t :: rest ->
+    (match t.[0] with
+     | 's' -> VStr (str_of_string (unhex (String.sub t 1 (String.length t - 1)))), rest
+     | 't' -> VBool true, rest
+     | 'f' -> VBool false, rest
+     | 'n' -> VNull, rest
+     | 'i' -> VInt (z_of_int (int_of_string (String.sub t 1 (String.length t - 1)))), rest
+     | '{' -> let rec fields acc toks = (match toks with
+         | "}" :: rest -> VStruct (List.rev acc), rest
+         | k :: rest -> let v, rest = parse_val rest in
+           fields ((str_of_string (unhex (String.sub k 1 (String.length k - 1))), v) :: acc) rest
+         | [] -> failwith "unterminated struct") in fields [] rest
+     | '[' -> let rec elems acc toks = (match toks with
+         | "]" :: rest -> VList (List.rev acc), rest
+         | _ -> let v, rest = parse_val toks in elems (v :: acc) rest) in elems [] rest
+     | _ -> failwith ("bad token " ^ t))
+
+let sort_fields l = List.stable_sort (fun (a, _) (b, _) -> Stdlib.compare (string_of_str a) (string_of_str b)) l
+(* maps are printed sorted by key, like the Go side: [deps] one level, [custom] recursively *)
+let rec sort_deep v = match v with
+  | VStruct l -> VStruct (sort_fields (List.map (fun (k, x) -> (k, sort_deep x)) l))
+  | VList l -> VList (List.map sort_deep l)
+  | _ -> v
+let norm_top l = List.map (fun (k, v) ->
+    match string_of_str k, v with
+    | "deps", VStruct d -> (k, VStruct (sort_fields d))
+    | "custom", _ -> (k, sort_deep v)
+    | _ -> (k, v)) l
+let rec tokens v = match v with
+  | VStr s -> "s" ^ hex (string_of_str s)
+  | VBool true -> "t" | VBool false -> "f" | VNull -> "n"
+  | VInt z -> "i" ^ string_of_int (int_of_z z)
+  | VStruct l -> "{" ^ String.concat "" (List.map (fun (k, x) -> " k" ^ hex (string_of_str k) ^ " " ^ tokens x) l) ^ " }"
+  | VList l -> "[" ^ String.concat "" (List.map (fun x -> " " ^ tokens x) l) ^ " ]"
+let class_of = function
+  | ENoLang -> "NOLANG" | ELangDecode -> "LANGDECODE" | EBadLang -> "BADLANG" | ETooNew -> "TOONEW"
+  | ENoSchema -> "NOSCHEMA" | ESchema -> "SCHEMA" | EDecode -> "DECODE" | EInit -> "INIT"
+let pairs l = String.concat " " (List.sort Stdlib.compare (List.map (fun (a, b) -> string_of_str a ^ "=" ^ string_of_str b) l))
+let view_string = function
+  | PErr e -> class_of e
+  | POk (t, w) -> String.trim ("OK " ^ tokens (VStruct (norm_top t)) ^ " DV " ^ pairs w.w_versions ^ " DM " ^ pairs w.w_defaults)
+
+let handle_mc line =
+  match words line with
+  | "MC" :: cur :: toks ->
+    let cur = unhex (String.sub cur 1 (String.length cur - 1)) in
+    let t = match parse_val toks with VStruct l, [] -> l | _ -> failwith "top level" in
+    let (((p, n), l), f) = c17_mc (str_of_string cur) t in
+    let fs, ft = match f with
+      | None -> "-", "-"
+      | Some (fo, dr) ->
+        (match fo with None -> "ERR" | Some t -> "OK " ^ tokens (VStruct (norm_top t))),
+        (if dr = [] then "none" else String.concat " " (List.map (fun k -> "k" ^ hex (string_of_str k)) dr)) in
+    Printf.sprintf "CUR=s%s ; P=%s ; N=%s ; L=%s ; F=%s ; FT=%s" (hex cur) (view_string p) (view_string n)
+      (match l with None -> "ERR" | Some s -> "OK s" ^ hex (string_of_str s)) fs ft
+  | _ -> "BADCASE"
+
 let () =
   (* modelrun [--coq FILE EVERY] *)
   (match Array.to_list Sys.argv with
@@ -155,6 +227,8 @@ let () =
       incr lineno;
       (if String.length line > 1 && line.[0] = 'U' then
          print_string (try handle line with Failure m -> "BADCASE " ^ m)
+       else if String.length line > 2 && String.sub line 0 3 = "MC " then
+         print_string (try handle_mc line with Failure m -> "BADCASE " ^ m)
        else print_string "-");
       print_newline ()
     done
